@@ -266,7 +266,14 @@ def _task(X):
                 whole = bool(getattr(rv_, 'joined', None)) or not any(x.src and x.src[0] in ('elem', 'summary-elem') for x in src_chain(rv_))
                 out['decode_unit'].add('whole content' if whole else 'one line at a time')
         for dd in decs:
-            out['decode_enc'].add(option_origin(dd.data['encoding']) or str(concrete(dd.data['encoding'])) if is_concrete(dd.data['encoding']) else option_origin(dd.data['encoding']))
+            enc_ = dd.data['encoding']
+            params_ = [e_.data['locals'].get('encoding') for e_ in enters]
+            if any(enc_ is p_ or (is_concrete(enc_) and is_concrete(p_) and concrete(enc_) == concrete(p_)) for p_ in params_):
+                out['decode_enc'].add('encoding')           # the very encoding the content function was given
+            elif is_concrete(enc_):
+                out['decode_enc'].add(str(concrete(enc_)))
+            else:
+                out['decode_enc'].add('other:%s' % (option_origin(enc_) or getattr(enc_, 'name', '?')))
         # returned content: the value stored into the record under the content key
         for k, v in rec.items.items():
             if k in ('text', 'metadata', 'diff') or (isinstance(v, Unk) and v is not opts and k not in ('level', 'line', 'section', 'type')):
